@@ -1960,6 +1960,95 @@ fn c19_clone_dropped(dir: PathBuf) -> ScenFut<'static> {
     })
 }
 
+/// A checkpoint directory that is written again after the store was restored to an older
+/// checkpoint: the new timeline reuses table ids of the discarded one, with tables of the same
+/// size (fixed-size records).
+fn c14_directory_reused_after_restore(dir: PathBuf) -> ScenFut<'static> {
+    Box::pin(async move {
+        let cfg = Cfg { cache: 0, level_count: 3, l0_max_files: 8, max_bytes_for_level: 1 << 20, ..base_cfg() };
+        let t = cfg.open(&dir.join("src")).map_err(|e| e.to_string())?;
+        let (ck_a, ck_d) = (dir.join("ckA"), dir.join("ckD"));
+        let fill = |tag: &'static str| -> Vec<(Vec<u8>, Vec<u8>)> { (0..40).map(|i| (format!("k{i:04}").into_bytes(), format!("timeline-{tag}-{i:04}").into_bytes())).collect() };
+        let write = |kv: Vec<(Vec<u8>, Vec<u8>)>| {
+            let t = &t;
+            async move {
+                let refs: Vec<(&[u8], &[u8])> = kv.iter().map(|(k, v)| (&k[..], &v[..])).collect();
+                put(t, &refs).await
+            }
+        };
+        put(&t, &[(b"base", b"0")]).await?;
+        t.verif_flush().map_err(|e| e.to_string())?;
+        t.create_checkpoint(&ck_a).map_err(|e| e.to_string())?;
+        write(fill("one")).await?;
+        t.verif_flush().map_err(|e| e.to_string())?;
+        t.create_checkpoint(&ck_d).map_err(|e| e.to_string())?;
+        t.restore_from_checkpoint(&ck_a).map_err(|e| format!("restore: {e}"))?;
+        write(fill("two")).await?;
+        t.verif_flush().map_err(|e| e.to_string())?;
+        t.create_checkpoint(&ck_d).map_err(|e| format!("second checkpoint into the same directory: {e}"))?;
+        // the directory now holds the checkpoint of the second timeline
+        let opened = cfg.open(&ck_d.clone()).map_err(|e| format!("the re-used checkpoint directory does not open as a database: {e}"));
+        let what = "checkpoint A; 40 keys written as timeline one, flushed; checkpoint D; restore A; the same 40 keys written as timeline two (same sizes: the flushed table reuses the id and the length of the discarded one), flushed; checkpoint into D again";
+        match opened {
+            Ok(o) => {
+                let v = get1(&o, b"k0000")?;
+                close(o).await;
+                if v.as_deref() != Some(&b"timeline-two-0000"[..]) {
+                    close(t).await;
+                    return Err(format!("{what}: D opened as a database has k0000 = {:?}", v.map(|v| String::from_utf8_lossy(&v).to_string())));
+                }
+            }
+            Err(e) => {
+                close(t).await;
+                return Err(format!("{what}: {e}"));
+            }
+        }
+        close(t).await;
+        Ok(())
+    })
+}
+
+/// close() is cancelled at its first suspension point (a timeout or select around it); the
+/// handle is still there.
+fn c19_close_cancelled(dir: PathBuf) -> ScenFut<'static> {
+    Box::pin(async move {
+        let cfg = base_cfg();
+        let a = cfg.open(&dir).map_err(|e| e.to_string())?;
+        put(&a, &[(b"k", b"v1")]).await?;
+        let completed = tokio::select! {
+            biased;
+            r = a.close() => Some(r),
+            _ = std::future::ready(()) => None,
+        };
+        let second = cfg.open(&dir);
+        let granted = second.is_ok();
+        if let Ok(t) = second {
+            close(t).await;
+        }
+        let reads = get1(&a, b"k");
+        // now let it run to completion
+        let r = a.close().await;
+        drop(a);
+        if completed.is_none() && granted {
+            return Err(format!("close() was dropped at its first suspension point (as under a timeout); the handle is still alive (a read through it: {:?}); a second open of the directory then succeeded", reads.map(|v| v.map(|v| String::from_utf8_lossy(&v).to_string()))));
+        }
+        if let Err(e) = r {
+            return Err(format!("close() after a cancelled close() fails: {e}"));
+        }
+        for _ in 0..200 {
+            match cfg.open(&dir) {
+                Ok(t) => {
+                    let v = get1(&t, b"k")?;
+                    close(t).await;
+                    return if v.as_deref() == Some(&b"v1"[..]) { Ok(()) } else { Err("data committed before the close is missing after the reopen".into()) };
+                }
+                Err(_) => tokio::time::sleep(std::time::Duration::from_millis(10)).await,
+            }
+        }
+        Err("the directory cannot be opened for 2 s after close() completed".into())
+    })
+}
+
 fn c16_filter_block_unchecked(dir: PathBuf) -> ScenFut<'static> {
     Box::pin(async move {
         use surrealkv::verif::{verif_table_write, VerifEntry, VerifTableHandle};
@@ -2048,7 +2137,29 @@ fn c15_sizes_around_a_memtable(dir: PathBuf) -> ScenFut<'static> {
         let cap = 64 * 1024usize;
         let mut accepted = 0;
         let mut refused = 0;
-        for (i, vlen) in (cap - 900..cap + 120).step_by(12).enumerate() {
+        // coarse steps towards the boundary, single bytes across it (what fits depends on the
+        // node overhead and on the two bytes the commit path adds to every value)
+        // is a {30-byte, vlen-byte} transaction accepted? (separate probe stores; used to find
+        // the boundary, which depends on node sizes the harness does not know)
+        let mut first_refused = None;
+        for vlen in (cap - 1500..cap + 120).step_by(25) {
+            let d = dir.join("probe");
+            let _ = std::fs::remove_dir_all(&d);
+            let t = Cfg { max_memtable_size: cap, ..base_cfg() }.open(&d).map_err(|e| e.to_string())?;
+            let big = vec![0x37u8; vlen];
+            let r = put(&t, &[(b"a_small", b"first-entry-of-the-transaction"), (b"k_big", &big[..])]).await;
+            close(t).await;
+            if r.is_err() {
+                first_refused = Some(vlen);
+                break;
+            }
+        }
+        let _ = std::fs::remove_dir_all(dir.join("probe"));
+        let edge = first_refused.ok_or("harness: no transaction size up to the memtable size was refused")?;
+        // coarse steps far from the boundary, single bytes across it (what fits depends on the
+        // node overhead and on the bytes the commit path adds to every value)
+        let lens: Vec<usize> = (cap - 1500..edge - 40).step_by(97).chain(edge - 40..edge + 12).chain((edge + 12..cap + 120).step_by(61)).collect();
+        for (i, vlen) in lens.into_iter().enumerate() {
             let d = dir.join(format!("s{i}"));
             let cfg = Cfg { max_memtable_size: cap, ..base_cfg() };
             let t = cfg.open(&d).map_err(|e| e.to_string())?;
@@ -2578,6 +2689,18 @@ pub fn all() -> Vec<Scenario> {
             property: "C12",
             title: "each 32 KiB block of a segment in turn reads as zeros",
             run: c12_zeroed_block,
+        },
+        Scenario {
+            id: "C14-directory-reused-after-restore",
+            property: "C14",
+            title: "checkpoint directory written again after a restore to an older checkpoint (table ids and sizes repeat)",
+            run: c14_directory_reused_after_restore,
+        },
+        Scenario {
+            id: "C19-close-cancelled",
+            property: "C19",
+            title: "close() dropped at its first suspension point, then the directory is opened again",
+            run: c19_close_cancelled,
         },
         Scenario {
             id: "C16-filter-block-unchecked",
